@@ -83,12 +83,13 @@ def ans_coq(a):
     return '(mkAns %s %s (mkA %d %d %d %d) %d [%s])' % (errcoq(a['err']), ent_coq(a['ent']), t['ino'], t['uid'], t['gid'], t['tag'], a['tag'],
         '; '.join('(%d, %d, %s)' % (dino, k, ent_coq(de)) for dino, k, de in a['dir']))
 
-def mk_req(op, ino, hdr=None, uid=0, gid=0, ino2=0, name=('norm', 1), name2=('norm', 2), auid=0, agid=0, size=4096, offset=0, limit=100, ans=None, mode='s'):
-    """mode: 's' FileSystem method, 'a' AsyncFileSystem method (backend futures ready), 'y' the same with every backend future Pending once"""
+def mk_req(op, ino, hdr=None, uid=0, gid=0, ino2=0, name=('norm', 1), name2=('norm', 2), auid=0, agid=0, size=4096, offset=0, limit=100, ans=None, mode='s', wrap=False):
+    """mode: 's' FileSystem method, 'a' AsyncFileSystem method (backend futures ready), 'y' the same with every backend future Pending once;
+    wrap: the request (context remap by header nodeid and the method) goes through Arc<Vfs>, i.e. the blanket impls for Arc<FS>"""
     if hdr is None:
         hdr = ino2 if op == 'link' else (0 if op == 'batch_forget' else ino)
     return {'k': 'R', 'op': op, 'hdr': hdr, 'uid': uid, 'gid': gid, 'ino': ino, 'ino2': ino2, 'name': name, 'name2': name2,
-            'auid': auid, 'agid': agid, 'size': size, 'offset': offset, 'limit': limit, 'ans': ans or mk_ans(), 'mode': mode}
+            'auid': auid, 'agid': agid, 'size': size, 'offset': offset, 'limit': limit, 'ans': ans or mk_ans(), 'mode': mode, 'wrap': wrap}
 
 class Tables:
     """method tables from the translator"""
@@ -113,7 +114,7 @@ def step_tok(st):
     if k == 'Q': return 'Q'
     if k == 'S': return 'S %d %s' % (st['ver'], st['fresh'])
     r = st
-    return 'R %s %d %d %d %d %d %s %s %d %d %d %d %d %s' % ({'a': 'a', 'y': 'y'}.get(r.get('mode'), '') + r['op'], r['hdr'], r['uid'], r['gid'], r['ino'], r['ino2'], name_tok(r['name']),
+    return 'R %s %d %d %d %d %d %s %s %d %d %d %d %d %s' % (('W:' if r.get('wrap') else '') + {'a': 'a', 'y': 'y'}.get(r.get('mode'), '') + r['op'], r['hdr'], r['uid'], r['gid'], r['ino'], r['ino2'], name_tok(r['name']),
         name_tok(r['name2']), r['auid'], r['agid'], r['size'], r['offset'], r['limit'], ans_tok(r['ans']))
 
 def op_coq(r, tb):
@@ -462,6 +463,10 @@ class HistoryGen:
         if op == 'setattr': d['size'] = self.rng.choice(SETATTR_VALID)
         if op in tb.async_ops and not os.environ.get('VFS_NO_ASYNC'):
             d['mode'] = self.rng.choice(['s', 's', 'a', 'y'])          # each of the ten twin operations through either entry point
+        # the way a Server holds the Vfs: four requests out of five go through Arc<Vfs> (period 5: independent of the period-2/3/4
+        # patterns the deterministic blocks use for ids, valid bits and entry points)
+        self.nreq = getattr(self, 'nreq', 0) + 1
+        d['wrap'] = (self.nreq % 5 != 0) and not os.environ.get('VFS_NO_WRAP')
         d.update(kw)
         st = mk_req(op, ino, **d)
         o = self.c.do(st)
